@@ -1543,7 +1543,19 @@ func (f *Frame) atCall(st *execState, call *ssa.Call) {
 		} else if ac.Nth != f.callOrd[call] {
 			continue
 		}
-		sc := f.scopeAt(st, nil)
+		// clauses speak about memory: unpacked objects are written back into a
+		// scratch copy of the state for their evaluation
+		stv := st
+		if len(f.unp) > 0 {
+			cp := *st
+			stv = &cp
+			f.packAll(stv)
+		}
+		sc := f.scopeAt(stv, nil)
+		// the call's own arguments are visible as arg0, arg1, ...
+		for i, a := range call.Call.Args {
+			sc.vars[fmt.Sprintf("arg%d", i)] = e.svOf(f.operand(st.env, a), a.Type())
+		}
 		if ac.Assume {
 			sc.goal = false
 			g := e.evalBool(sc, ac.C.Expr, ac.C.Text)
